@@ -227,3 +227,68 @@ def agg_sites(body, pat):
         if any(r.search(n or "") for n in names):
             out.append((bb, s, e))
     return out
+
+
+def canon(e, depth=6):
+    """canonical text of an expression: no block ids, no local numbers —
+    used to compare guards/effects of sibling bodies"""
+    if not isinstance(e, tuple):
+        return str(e)
+    if depth <= 0:
+        return "…"
+    k = e[0]
+    if k == "const":
+        if e[3] is not None:
+            return repr(e[3])
+        if e[1]:
+            return "::".join(e[1].split("::")[-2:])
+        return str(e[2])
+    if k in ("arg", "var"):
+        return e[2] or "_"
+    if k == "phi":
+        return "φ(%s)" % (e[2] or ",".join(sorted(canon(x, depth - 2) for x in e[3])))
+    if k == "place":
+        return canon(e[1], depth - 1) + "".join("." + p.rsplit(".", 1)[-1] if p.startswith(".") else p for p in e[2])
+    if k == "call":
+        nm = (e[1] or "?").split("::")
+        return "%s(%s)" % ("::".join(nm[-2:]), ",".join(canon(a, depth - 1) for a in e[2]))
+    if k == "bin":
+        return "(%s %s %s)" % (canon(e[2], depth - 1), e[1], canon(e[3], depth - 1))
+    if k == "un":
+        return "%s(%s)" % (e[1], canon(e[2], depth - 1))
+    if k == "cast":
+        return canon(e[1], depth - 1)
+    if k == "discr":
+        return "discr(%s)" % canon(e[1], depth - 1)
+    if k == "agg":
+        return "%s{%s}" % ("::".join((e[2] or "").split("::")[-2:]), ",".join(canon(a, depth - 1) for a in e[3]))
+    return k
+
+
+def lab_s(lab):
+    if isinstance(lab, tuple):
+        if lab[0] == "otherwise":
+            return "otherwise(%s)" % ",".join(sorted(map(str, lab[1])))
+        if lab[0] == "oneof":
+            return "oneof(%s)" % ",".join(sorted(lab_s(l) for l in lab[1]))
+    return str(lab)
+
+
+def deep_conds(body, c, depth=3, _seen=None):
+    """a boolean computed through temporaries (`let x = a && b || c;`) is a
+    phi whose definitions sit under further branches. Returns the list of all
+    expressions that feed it: its definitions and the conditions guarding
+    those definitions, recursively."""
+    _seen = _seen if _seen is not None else set()
+    out = [c]
+    if depth <= 0:
+        return out
+    for x in walk(c):
+        if x[0] == "phi" and x[1] not in _seen:
+            _seen.add(x[1])
+            for d in body.defs().get(x[1], []):
+                e = body.def_expr(d, 6)
+                out.extend(deep_conds(body, e, depth - 1, _seen))
+                for g, lab, a in body.guards(d[1]):
+                    out.extend(deep_conds(body, g, depth - 1, _seen))
+    return out
